@@ -31,12 +31,12 @@ void harness(void) {
 	VF_NATIVE_POST(r != 0 || val == NULL || (*val >= msg + 2 && *val <= msg + msg_size), "value starts inside the message");
 	VF_NATIVE_POST(r != 0 || val == NULL || val_size == NULL ||
 	    (*val_size <= msg_size && *val + *val_size <= msg + msg_size), "value lies inside the message");
-	VF_NATIVE_POST(r != 0 || line == NULL || (*line >= line0 && *line <= msg_size / 2), "line number bounded");
+	VF_NATIVE_POST(r != 0 || line == NULL || (*line >= line0 && *line <= msg_size), "line number bounded");
 #elif defined(VF_FN_type_get_count)
 	VF_FRESH_PTR_OPT(uint8_t, msg, msg_size);
 	VF_NONDET(uint8_t, type);
 	size_t n = sdp_msg_type_get_count(msg, msg_size, type);
-	VF_NATIVE_POST(n <= msg_size / 2 + 1, "count bounded by the number of lines");
+	VF_NATIVE_POST(n <= msg_size + 1, "count bounded by the number of lines");
 #elif defined(VF_FN_feilds_get)
 	VF_FRESH_PTR_OPT(uint8_t, msg, msg_size);
 	VF_NONDET(size_t, max_feilds);
